@@ -23,7 +23,7 @@ for sid in sorted(os.listdir(os.path.join(VERIF, 'seeded'))):
     meta = {
         'id': sid,
         'property': sid.split('-')[0],
-        'wave': 1 if int(sid.split('-')[1]) <= 3 else 2,
+        'wave': (int(sid.split('-')[1]) + 2) // 3,
         'source': 'independent sub-agent (given only the property record and a scratch worktree of /repo)',
         'what': title,
         'needs_to_manifest': needs_text,
